@@ -29,6 +29,8 @@ import (
 	"regexp"
 	"strconv"
 	"strings"
+
+	"golang.org/x/tools/go/ssa"
 )
 
 func init() { register("C18", checkC18) }
@@ -190,14 +192,14 @@ func checkC18(ctx *Ctx, r *Report, tier string) {
 			if len(e.Args) != 3 {
 				continue
 			}
-			keyOK := valKey(e.Args[1]) == fn.Params[1].Name()
+			keyOK := valKey(e.Args[1]) == paramName(fn, 1)
 			var obj Val
 			if pp, isP := e.Args[2].(*Ptr); isP && pp.Obj != nil {
 				obj = e.State.mem[pp.Obj]
 			}
 			m := map[string]*Term{}
 			leafTerms("", obj, m)
-			dia, sec, ftof := A(fn.Params[2].Name()), A(fn.Params[3].Name()), A(fn.Params[4].Name())
+			dia, sec, ftof := A(paramName(fn, 2)), A(paramName(fn, 3)), A(paramName(fn, 4))
 			wantP := sec
 			if a.pitchInv {
 				wantP = Div(K(1), sec)
@@ -206,7 +208,7 @@ func checkC18(ctx *Ctx, r *Report, tier string) {
 				m[".Pitch"] != nil && equalRat(m[".Pitch"], wantP) &&
 				m[".HexFlat2Flat"] != nil && m[".HexFlat2Flat"].Key() == ftof.Key() &&
 				m[".Units"] != nil && m[".Units"].Key() == a.units &&
-				m[".Name"] != nil && m[".Name"].Key() == fn.Params[1].Name()
+				m[".Name"] != nil && m[".Name"].Key() == paramName(fn, 1)
 			if a.taper {
 				t := m[".Taper"]
 				okT := false
@@ -229,10 +231,10 @@ func checkC18(ctx *Ctx, r *Report, tier string) {
 	r.floor("H2", 3)
 
 	// H3
-	if fn := ctx.ssaFunc("sdf", "(*ThreadParameters).ToMillimetre"); fn != nil {
+	h3 := func(fn *ssa.Function, label string) {
 		ev := newEval(ctx)
 		ev.evalRoot(fn)
-		recv := fn.Params[0].Name()
+		recv := paramName(fn, 0)
 		mmTest := Cmp("==", A(recv+".Units"), A(`"mm"`))
 		okSame, okNew := false, false
 		detail := ""
@@ -254,8 +256,8 @@ func checkC18(ctx *Ctx, r *Report, tier string) {
 			}
 			detail += " unexpected return " + shortKey(valKey(alt.Val), 60)
 		}
-		r.check("H3", "ToMillimetre|mm-rows-returned-unchanged", fn.Pos(), okSame, "the receiver itself is returned exactly when Units == \"mm\" (idempotence)")
-		r.check("H3", "ToMillimetre|inch-rows-converted-into-a-new-record", fn.Pos(), okNew, "lengths × 25.4, Taper and Name kept, Units \"mm\", in a fresh record; "+detail)
+		r.check("H3", label+"|mm-rows-returned-unchanged", fn.Pos(), okSame, "the receiver itself is returned exactly when Units == \"mm\" (idempotence)")
+		r.check("H3", label+"|inch-rows-converted-into-a-new-record", fn.Pos(), okNew, "lengths × 25.4, Taper and Name kept, Units \"mm\", in a fresh record; "+detail)
 		e := newFxEngine(ctx)
 		s := e.summarize(fn)
 		wr := ""
@@ -264,9 +266,18 @@ func checkC18(ctx *Ctx, r *Report, tier string) {
 				wr += fmt.Sprintf(" %s [%s]", w.root, w.why)
 			}
 		}
-		r.check("H3", "ToMillimetre|does-not-write-the-shared-row", fn.Pos(), wr == "", "ThreadLookup hands out the database's own record: converting in place corrupts it for every later user;"+wr)
+		r.check("H3", label+"|does-not-write-the-shared-row", fn.Pos(), wr == "", "ThreadLookup hands out the database's own record: converting in place corrupts it for every later user;"+wr)
+	}
+	if fn := ctx.ssaFunc("sdf", "(*ThreadParameters).ToMillimetre"); fn != nil {
+		h3(fn, "ToMillimetre")
 	} else {
 		r.undecided("H3", "ToMillimetre", 0, "not found")
+	}
+	if cf := ctx.ssaFunc("sdf", "(*ThreadParameters).verifCtlToMillimetreInPlace"); cf != nil {
+		h3(cf, "verifCtlToMillimetreInPlace")
+		r.expectControl("H3", "verifCtlToMillimetreInPlace|does-not-write-the-shared-row")
+	} else if !r.controlSkipped() {
+		r.undecided("H3", "control", 0, "positive control missing")
 	}
 	r.floor("H3", 3)
 
@@ -283,7 +294,7 @@ func checkC18(ctx *Ctx, r *Report, tier string) {
 		}
 		ev := newEvalPkg(ctx, "/obj", "ISOThread", "Screw3D", "HexHead3D", "KnurledHead3D", "Cylinder3D", "Transform3D", "Union3D", "Difference3D", "ChamferedCylinder", "ThreadLookup", "HexRadius", "HexHeight", "Translate3d", "ErrMsg")
 		ev.evalRoot(fn)
-		k := fn.Params[0].Name()
+		k := paramName(fn, 0)
 		row := "call:" + modPath + "/sdf.ThreadLookup#0(" + k + ".Thread)"
 		its := eventsOf(ev, "sdf.ISOThread")
 		ok := len(its) == 1
